@@ -516,7 +516,35 @@ def _rooted_field(o, l, body, org, bi, si):
         rootself = org.of_local(l, bi, si)
     except RecursionError:
         return False
-    return cur == rootself or (cur[0] in ("phi", "cycle", "arg") and _mentions_local(cur, l)) or cur == ("cycle", l)
+    if cur == rootself or (cur[0] in ("phi", "cycle", "arg") and _mentions_local(cur, l)) or cur == ("cycle", l):
+        return True
+    # the root is reached through other locals of the same iteration (`let (t, left, right) = match node {..}`):
+    # every leaf of the root expression is the variable's value before the loop, a loop-carried value, or again a
+    # child of such a value
+    init = [org.of_rvalue(d[3]["r"], d[1], d[2]) for d in org.defs.get(l, []) if d[2] == "assign" and False]
+    inits = set()
+    for d in Vars(body).defs.get(l, []):
+        if d[0] == "assign":
+            o0 = org.of_rvalue(d[3]["r"], d[1], d[2])
+            if not any(isinstance(x, tuple) and x and x[0] in ("cycle", "phi", "field") for x in walk(o0)):
+                inits.add(o0)
+
+    def derived(o, depth=0):
+        if depth > 40 or not isinstance(o, tuple) or not o:
+            return False
+        if o[0] == "cycle" or o in inits:
+            return True
+        if o[0] == "phi":
+            return all(derived(x, depth + 1) for x in o[1])
+        if o[0] == "field":
+            return derived(o[2], depth + 1)
+        if o[0] == "variant":
+            return derived(o[2], depth + 1)
+        if o[0] in ("some", "ok"):
+            return derived(o[1], depth + 1)
+        return False
+
+    return bool(inits) and derived(cur)
 
 
 def _mentions_local(o, l):
